@@ -2004,6 +2004,9 @@ class Generator:
         lower = text.lower()
         quoted = expression.quoted
         text = lower if self.normalize and not quoted else text
+        if "\\" in text and "\\" in self.dialect.tokenizer_class.IDENTIFIER_ESCAPES:
+            # The tokenizer treats a backslash inside a quoted identifier as an escape character
+            text = text.replace("\\", "\\\\")
         text = text.replace(self._identifier_end, self._escaped_identifier_end)
         if (
             quoted
